@@ -1,3 +1,244 @@
 import TlsModel.Proto
-/- driver stub for C19: replaced when the model exists -/
-def main : IO Unit := Tls.protoMain (fun _ => none)
+import TlsModel.Settings
+/-
+  Driver for C19.
+    validate <env> f=v f=v ...   -> `ok f=v f=v ...` (canonical, all fields) | `ValueError <message prefix>`
+    defaults <env>               -> `ok f=v ...` of Gen.defaults
+    consts <env>                 -> NAME=a,b,c ... of every generated name list
+    pure                         -> true|false   (pureOps Gen.validateOps)
+    taint <bits>                 -> attributes of the result that alias a receiver object on the path
+                                    selected by the branch-condition bits (comma list | `-` | `impure`)
+    conds                        -> number of branch conditions
+  <env>  = 10 characters 0/1 in the order of `Env`'s fields.   <bits> = string of 0/1 (or `-`).
+  Encodings: string lists `a,b` (`-` empty); ints decimal; versions `3.4`; flags T/F/X; bools 1/0;
+  dhParams N/P/M; virtual hosts `;`-separated, each `e` (no keys) or `,`-separated keypairs `11`;
+  pskConfigs `,`-separated `len` or `len:hash`; record_size_limit `N` or int;
+  dc_sig_algs `L:<pairs>` or `S:a.b`.
+-/
+open Tls Tls.Settings
+
+def parseEnv (s : String) : Option Env :=
+  match s.toList.map (· == '1') with
+  | [a, b, c, d, e, f, g, h, i, j] =>
+    if s.toList.all (fun ch => ch == '0' || ch == '1') then some ⟨a, b, c, d, e, f, g, h, i, j⟩ else none
+  | _ => none
+
+def parseBits (s : String) : Option (List Bool) :=
+  if s == "-" then some []
+  else if s.toList.all (fun ch => ch == '0' || ch == '1') then some (s.toList.map (· == '1')) else none
+
+def pStrList (s : String) : List String := if s == "-" then [] else s.splitOn ","
+def eStrList (l : List String) : String := if l.isEmpty then "-" else ",".intercalate l
+
+def pVer (s : String) : Option Ver :=
+  match s.splitOn "." with
+  | [a, b] => do pure ((← a.toNat?), (← b.toNat?))
+  | _ => none
+def eVer (v : Ver) : String := s!"{v.1}.{v.2}"
+def pVerList (s : String) : Option (List Ver) := if s == "-" then some [] else (s.splitOn ",").mapM pVer
+def eVerList (l : List Ver) : String := eStrList (l.map eVer)
+def pNatList (s : String) : Option (List Nat) := if s == "-" then some [] else (s.splitOn ",").mapM String.toNat?
+def eNatList (l : List Nat) : String := eStrList (l.map toString)
+
+def pFlag : String → Option Flag
+  | "T" => some .t | "F" => some .f | "X" => some .other | _ => none
+def eFlag : Flag → String
+  | .t => "T" | .f => "F" | .other => "X"
+def pBool : String → Option Bool
+  | "1" => some true | "0" => some false | _ => none
+def eBool (b : Bool) : String := if b then "1" else "0"
+def pDh : String → Option DhParams
+  | "N" => some .none | "P" => some .pair | "M" => some .malformed | _ => none
+def eDh : DhParams → String
+  | .none => "N" | .pair => "P" | .malformed => "M"
+
+def pKeypair : String → Option (Bool × Bool)
+  | "11" => some (true, true) | "10" => some (true, false)
+  | "01" => some (false, true) | "00" => some (false, false) | _ => none
+def eKeypair (k : Bool × Bool) : String := eBool k.1 ++ eBool k.2
+def pVhost (s : String) : Option (List (Bool × Bool)) :=
+  if s == "e" then some [] else (s.splitOn ",").mapM pKeypair
+def eVhost (v : List (Bool × Bool)) : String := if v.isEmpty then "e" else ",".intercalate (v.map eKeypair)
+def pVhosts (s : String) : Option (List (List (Bool × Bool))) :=
+  if s == "-" then some [] else (s.splitOn ";").mapM pVhost
+def eVhosts (l : List (List (Bool × Bool))) : String :=
+  if l.isEmpty then "-" else ";".intercalate (l.map eVhost)
+
+def pPsk (s : String) : Option Psk :=
+  match s.splitOn ":" with
+  | [n] => do pure ⟨← n.toNat?, none⟩
+  | [n, h] => do pure ⟨← n.toNat?, some h⟩
+  | _ => none
+def ePsk (p : Psk) : String :=
+  match p.hash with
+  | some h => s!"{p.len}:{h}"
+  | none => toString p.len
+def pPsks (s : String) : Option (List Psk) := if s == "-" then some [] else (s.splitOn ",").mapM pPsk
+def ePsks (l : List Psk) : String := eStrList (l.map ePsk)
+
+def pOptInt (s : String) : Option (Option Int) := if s == "N" then some none else s.toInt?.map some
+def eOptInt : Option Int → String
+  | none => "N"
+  | some v => toString v
+
+def pDc (s : String) : Option DcAlgs :=
+  if s.startsWith "L:" then (pVerList (s.drop 2).toString).map .list
+  else if s.startsWith "S:" then (pVer (s.drop 2).toString).map .scheme
+  else none
+def eDc : DcAlgs → String
+  | .list xs => "L:" ++ eVerList xs
+  | .scheme x => "S:" ++ eVer x
+
+def splitKV (tok : String) : Option (String × String) :=
+  match tok.splitOn "=" with
+  | k :: v :: rest => some (k, "=".intercalate (v :: rest))
+  | _ => none
+
+def parseSettings (toks : List String) : Option Settings := do
+  let kvs ← toks.mapM splitKV
+  if kvs.length != 43 then none
+  let get := fun (k : String) => (kvs.find? fun kv => kv.1 == k).map (·.2)
+  pure {
+    minKeySize := ← (← get "minKeySize").toInt?
+    maxKeySize := ← (← get "maxKeySize").toInt?
+    rsaSigHashes := pStrList (← get "rsaSigHashes")
+    rsaSchemes := pStrList (← get "rsaSchemes")
+    dsaSigHashes := pStrList (← get "dsaSigHashes")
+    virtual_hosts := ← pVhosts (← get "virtual_hosts")
+    eccCurves := pStrList (← get "eccCurves")
+    dhParams := ← pDh (← get "dhParams")
+    dhGroups := pStrList (← get "dhGroups")
+    defaultCurve := ← get "defaultCurve"
+    keyShares := pStrList (← get "keyShares")
+    padding_cb := ← pBool (← get "padding_cb")
+    use_heartbeat_extension := ← pFlag (← get "use_heartbeat_extension")
+    heartbeat_response_callback := ← pBool (← get "heartbeat_response_callback")
+    certificateTypes := pStrList (← get "certificateTypes")
+    useExperimentalTackExtension := ← pBool (← get "useExperimentalTackExtension")
+    sendFallbackSCSV := ← pBool (← get "sendFallbackSCSV")
+    useEncryptThenMAC := ← pFlag (← get "useEncryptThenMAC")
+    ecdsaSigHashes := pStrList (← get "ecdsaSigHashes")
+    more_sig_schemes := pStrList (← get "more_sig_schemes")
+    usePaddingExtension := ← pFlag (← get "usePaddingExtension")
+    useExtendedMasterSecret := ← pFlag (← get "useExtendedMasterSecret")
+    requireExtendedMasterSecret := ← pFlag (← get "requireExtendedMasterSecret")
+    pskConfigs := ← pPsks (← get "pskConfigs")
+    psk_modes := pStrList (← get "psk_modes")
+    ticketKeys := ← pNatList (← get "ticketKeys")
+    ticketCipher := ← get "ticketCipher"
+    ticketLifetime := ← (← get "ticketLifetime").toInt?
+    max_early_data := ← (← get "max_early_data").toInt?
+    ticket_count := ← (← get "ticket_count").toInt?
+    record_size_limit := ← pOptInt (← get "record_size_limit")
+    ec_point_formats := ← pNatList (← get "ec_point_formats")
+    certificate_compression_send := pStrList (← get "certificate_compression_send")
+    certificate_compression_receive := pStrList (← get "certificate_compression_receive")
+    dc_sig_algs := ← pDc (← get "dc_sig_algs")
+    dc_valid_time := ← (← get "dc_valid_time").toInt?
+    minVersion := ← pVer (← get "minVersion")
+    maxVersion := ← pVer (← get "maxVersion")
+    versions := ← pVerList (← get "versions")
+    cipherNames := pStrList (← get "cipherNames")
+    macNames := pStrList (← get "macNames")
+    keyExchangeNames := pStrList (← get "keyExchangeNames")
+    cipherImplementations := pStrList (← get "cipherImplementations")
+  }
+
+def encSettings (s : Settings) : String :=
+  " ".intercalate [
+    "minKeySize=" ++ toString s.minKeySize,
+    "maxKeySize=" ++ toString s.maxKeySize,
+    "rsaSigHashes=" ++ eStrList s.rsaSigHashes,
+    "rsaSchemes=" ++ eStrList s.rsaSchemes,
+    "dsaSigHashes=" ++ eStrList s.dsaSigHashes,
+    "virtual_hosts=" ++ eVhosts s.virtual_hosts,
+    "eccCurves=" ++ eStrList s.eccCurves,
+    "dhParams=" ++ eDh s.dhParams,
+    "dhGroups=" ++ eStrList s.dhGroups,
+    "defaultCurve=" ++ s.defaultCurve,
+    "keyShares=" ++ eStrList s.keyShares,
+    "padding_cb=" ++ eBool s.padding_cb,
+    "use_heartbeat_extension=" ++ eFlag s.use_heartbeat_extension,
+    "heartbeat_response_callback=" ++ eBool s.heartbeat_response_callback,
+    "certificateTypes=" ++ eStrList s.certificateTypes,
+    "useExperimentalTackExtension=" ++ eBool s.useExperimentalTackExtension,
+    "sendFallbackSCSV=" ++ eBool s.sendFallbackSCSV,
+    "useEncryptThenMAC=" ++ eFlag s.useEncryptThenMAC,
+    "ecdsaSigHashes=" ++ eStrList s.ecdsaSigHashes,
+    "more_sig_schemes=" ++ eStrList s.more_sig_schemes,
+    "usePaddingExtension=" ++ eFlag s.usePaddingExtension,
+    "useExtendedMasterSecret=" ++ eFlag s.useExtendedMasterSecret,
+    "requireExtendedMasterSecret=" ++ eFlag s.requireExtendedMasterSecret,
+    "pskConfigs=" ++ ePsks s.pskConfigs,
+    "psk_modes=" ++ eStrList s.psk_modes,
+    "ticketKeys=" ++ eNatList s.ticketKeys,
+    "ticketCipher=" ++ s.ticketCipher,
+    "ticketLifetime=" ++ toString s.ticketLifetime,
+    "max_early_data=" ++ toString s.max_early_data,
+    "ticket_count=" ++ toString s.ticket_count,
+    "record_size_limit=" ++ eOptInt s.record_size_limit,
+    "ec_point_formats=" ++ eNatList s.ec_point_formats,
+    "certificate_compression_send=" ++ eStrList s.certificate_compression_send,
+    "certificate_compression_receive=" ++ eStrList s.certificate_compression_receive,
+    "dc_sig_algs=" ++ eDc s.dc_sig_algs,
+    "dc_valid_time=" ++ toString s.dc_valid_time,
+    "minVersion=" ++ eVer s.minVersion,
+    "maxVersion=" ++ eVer s.maxVersion,
+    "versions=" ++ eVerList s.versions,
+    "cipherNames=" ++ eStrList s.cipherNames,
+    "macNames=" ++ eStrList s.macNames,
+    "keyExchangeNames=" ++ eStrList s.keyExchangeNames,
+    "cipherImplementations=" ++ eStrList s.cipherImplementations ]
+
+def encConsts (e : Env) : String :=
+  " ".intercalate [
+    "CIPHER_NAMES=" ++ eStrList (Gen.cipherNames e),
+    "ALL_CIPHER_NAMES=" ++ eStrList (Gen.allCipherNames e),
+    "MAC_NAMES=" ++ eStrList (Gen.macNames e),
+    "ALL_MAC_NAMES=" ++ eStrList (Gen.allMacNames e),
+    "KEY_EXCHANGE_NAMES=" ++ eStrList (Gen.keyExchangeNames e),
+    "CIPHER_IMPLEMENTATIONS=" ++ eStrList (Gen.cipherImplementations e),
+    "CERTIFICATE_TYPES=" ++ eStrList (Gen.certificateTypes e),
+    "RSA_SIGNATURE_HASHES=" ++ eStrList (Gen.rsaSignatureHashes e),
+    "DSA_SIGNATURE_HASHES=" ++ eStrList (Gen.dsaSignatureHashes e),
+    "ECDSA_SIGNATURE_HASHES=" ++ eStrList (Gen.ecdsaSignatureHashes e),
+    "ALL_RSA_SIGNATURE_HASHES=" ++ eStrList (Gen.allRsaSignatureHashes e),
+    "SIGNATURE_SCHEMES=" ++ eStrList (Gen.signatureSchemes e),
+    "RSA_SCHEMES=" ++ eStrList (Gen.rsaSchemes e),
+    "CURVE_NAMES=" ++ eStrList (Gen.curveNames e),
+    "ALL_CURVE_NAMES=" ++ eStrList (Gen.allCurveNames e),
+    "ALL_DH_GROUP_NAMES=" ++ eStrList (Gen.allDhGroupNames e),
+    "TLS13_PERMITTED_GROUPS=" ++ eStrList (Gen.tls13PermittedGroups e),
+    "KNOWN_VERSIONS=" ++ eVerList (Gen.knownVersions e),
+    "TICKET_CIPHERS=" ++ eStrList (Gen.ticketCiphers e),
+    "PSK_MODES=" ++ eStrList (Gen.pskModes e),
+    "EC_POINT_FORMATS=" ++ eNatList (Gen.ecPointFormats e),
+    "ALL_COMPRESSION_ALGOS_SEND=" ++ eStrList (Gen.allCompressionAlgosSend e),
+    "ALL_COMPRESSION_ALGOS_RECEIVE=" ++ eStrList (Gen.allCompressionAlgosReceive e),
+    "DELEGETED_CREDENTIAL_FORBIDDEN_ALG=" ++ eVerList (Gen.delegetedCredentialForbiddenAlg e),
+    "DC_VALID_TIME=" ++ toString (Gen.dcValidTime e) ]
+
+def handle : List String → Option String
+  | "validate" :: env :: rest => do
+    let e ← parseEnv env
+    let s ← parseSettings rest
+    match validate e s with
+    | .ok o => some ("ok " ++ encSettings o)
+    | .error m => some ("ValueError " ++ m)
+  | ["defaults", env] => do
+    let e ← parseEnv env
+    some ("ok " ++ encSettings (Gen.defaults e))
+  | ["consts", env] => do
+    let e ← parseEnv env
+    some (encConsts e)
+  | ["pure"] => some (boolOut (pureOps Gen.validateOps))
+  | ["conds"] => some (toString (condBound Gen.validateOps) ++ " " ++ toString Gen.validateConds.length)
+  | ["taint", bits] => do
+    let b ← parseBits bits
+    match finalTaint b Gen.validateOps (fun _ => true) with
+    | some T => some (eStrList (Gen.initFields.filter T))
+    | none => some "impure"
+  | ["flags"] => some (boolOut Gen.constsOk ++ " " ++ boolOut Gen.defaultsOk)
+  | _ => none
+
+def main : IO Unit := protoMain handle
